@@ -201,16 +201,22 @@ def m_throttle_first(eng, sid, w):
 
 
 def m_throttle_with_mapper(eng, sid, pick):
-    st = {"id": 0, "has": False, "v": None, "sub": None}
+    st = {"id": 0, "has": False, "v": None, "cur": None}
+
+    def drop(holder):
+        # (like the operator's serial disposable: the holder is registered before its throttle is subscribed, so that an element
+        # arriving from inside that subscribe() - a consumer feeding back - lets go of the right one)
+        if holder is not None:
+            holder["dead"] = True
+            if holder["sub"] is not None:
+                holder["sub"].cancel()
 
     def on_next(v):
         st["id"] += 1
         my = st["id"]
         st["has"], st["v"] = True, v
-        if st["sub"] is not None:
-            st["sub"].cancel()
-
-        mine = {"sub": None, "fired": False}
+        drop(st["cur"])
+        mine = st["cur"] = {"sub": None, "fired": False, "dead": False}
 
         def th(k, x):
             if mine["fired"]:
@@ -225,13 +231,12 @@ def m_throttle_with_mapper(eng, sid, pick):
             if mine["sub"] is not None:
                 mine["sub"].cancel()
 
-        mine["sub"] = st["sub"] = eng.subscribe(pick(v), th)
-        if mine["fired"]:
-            mine["sub"].cancel()  # it fired inside its own subscribe()
+        mine["sub"] = eng.subscribe(pick(v), th)
+        if mine["fired"] or mine["dead"]:
+            mine["sub"].cancel()  # it fired inside its own subscribe(), or was superseded from inside it
 
     def on_completed():
-        if st["sub"] is not None:
-            st["sub"].cancel()
+        drop(st["cur"])
         if st["has"]:
             st["has"] = False
             eng.emit("N", st["v"])
